@@ -20,7 +20,9 @@ PropOne(res) ==
   /\ UntouchedElse(C.ps, Pre, res)
   /\ IF C.fn = "fair" THEN FairShape(IncOf(C.ps, Pre, res)) ELSE RateShape(C.ps, C.d, IncOf(C.ps, Pre, res))
 \* v2 does nothing for a nil distribution (documented: it has no return value); v1 creates one
-C14_v1 == ~C.v1nil /\ PropOne(V1)
+\* a distribution that was handed in (nil excepted) is the one that gets the dividend: "every pre-filled distribution ... add exactly the
+\* dividend in total to the entries" - an empty one included
+C14_v1 == ~C.v1nil /\ PropOne(V1) /\ (C.prenil \/ ToFn(C.v1in) = V1)
 C14_v2 == C.prenil \/ (~C.v2nil /\ PropOne(V2))
 C14_same == C.prenil \/ V1 = V2
 
